@@ -23,6 +23,10 @@
 //	[9]           gsb.ExitIdle
 //	[10, id]      child id calls cc.ResolveNow
 //	[11, id, sc]  child id calls cc.UpdateAddresses(sc)
+//	[12, id, j, s] child id calls cc.NewSubConn and, while that call is inside the channel's
+//	              NewSubConn (gsb.mu not held), child j reports state s; the swap this may
+//	              cause, including the asynchronous Close of the old wrapper, completes
+//	              (synctest.Wait) before the channel's NewSubConn returns
 //
 // obs: one word per event, every op ends with [0]
 //
@@ -68,6 +72,7 @@ type vGSwitchEnv struct {
 	scs      []*vGSwitchSC
 	gsb      *gracefulswitch.Balancer
 	tags     map[string]bool
+	during   func() // scripted re-entrant action, run once inside the channel's NewSubConn
 }
 
 var vGSwitchCur *vGSwitchEnv
@@ -153,6 +158,10 @@ func (c *vGSwitchCC) NewSubConn(_ []resolver.Address, o balancer.NewSubConnOptio
 	c.e.scs = append(c.e.scs, sc)
 	c.e.mu.Unlock()
 	c.e.ev(2, sc.id)
+	if h := c.e.during; h != nil {
+		c.e.during = nil
+		h()
+	}
 	return sc, nil
 }
 func (c *vGSwitchCC) RemoveSubConn(sc balancer.SubConn) { sc.Shutdown() }
@@ -347,6 +356,23 @@ func vGSwitchExecIn(cfg []int64, ops [][]int64) (obs [][]int64, nontrivial bool,
 			if c, sc := child(arg(op, 1)), subconn(arg(op, 2)); c != nil && sc != nil {
 				c.cc.UpdateAddresses(sc, nil)
 			}
+		case 12:
+			if c, j, s := child(arg(op, 1)), child(arg(op, 2)), arg(op, 3); c != nil && j != nil && s >= 0 && s <= 3 {
+				e.during = func() {
+					j.update(s)
+					// let the goroutine of swap() (old wrapper's Close) finish, and list
+					// its events here, before the channel's NewSubConn returns
+					synctest.Wait()
+					e.mu.Lock()
+					e.main = append(e.main, vGSwitchSortRuns(e.async)...)
+					e.async = nil
+					e.mu.Unlock()
+					e.tags["reentrant_report"] = true
+				}
+				ok, sc := c.newSC()
+				e.during = nil
+				e.ev(11, ok, sc)
+			}
 		}
 		evs := e.flush()
 		// tags: which swap rule fired
@@ -360,6 +386,13 @@ func vGSwitchExecIn(cfg []int64, ops [][]int64) (obs [][]int64, nontrivial bool,
 							e.tags["swap_by_current"] = true
 						}
 					}
+				}
+			}
+		}
+		if op[0] == 12 {
+			for _, w := range evs {
+				if w[0] == 11 && w[1] == 0 && len(evs) > 2 {
+					e.tags["inflight_shutdown"] = true
 				}
 			}
 		}
@@ -412,6 +445,12 @@ func vGSwitchGen(r *vRand, tier string, idx int) ([]int64, [][]int64) {
 	var ops [][]int64
 	nch, nsc := int64(0), int64(0)
 	n := 40 + r.Intn(80)
+	if idx == 1 {
+		// NewSubConn of the old policy in flight while the swap (and the old wrapper's Close) completes:
+		// by a report of the pending policy, by a report of the old policy itself, and not at all
+		return []int64{-1, 0, -1, 0, -1, 0}, [][]int64{{1, 0}, {2, 0, 2}, {3, 0}, {1, 1}, {12, 0, 1, 2}, {4, 1, 4},
+			{3, 1}, {1, 2}, {12, 1, 1, 3}, {12, 2, 2, 1}, {12, 2, 0, 2}, {12, 0, 2, 2}, {1, 0}, {12, 3, 2, 2}, {12, 2, 3, 1}, {5}, {12, 3, 2, 2}}
+	}
 	if idx == 0 {
 		// the two swap rules, scripted
 		return cfg, [][]int64{{1, 0}, {2, 0, 2}, {3, 0}, {1, 1}, {3, 1}, {2, 1, 1}, {2, 0, 2}, {2, 1, 2},
@@ -439,8 +478,11 @@ func vGSwitchGen(r *vRand, tier string, idx int) ([]int64, [][]int64) {
 			nch++
 		case k < 50:
 			ops = append(ops, []int64{2, anych(), r.PickI64(0, 1, 1, 2, 2, 2, 3)})
-		case k < 62:
+		case k < 58:
 			ops = append(ops, []int64{3, anych()})
+			nsc++
+		case k < 62:
+			ops = append(ops, []int64{12, anych(), anych(), r.PickI64(0, 1, 2, 2, 3, 3)})
 			nsc++
 		case k < 72:
 			ops = append(ops, []int64{4, anysc(), int64(r.Intn(5))})
@@ -457,7 +499,7 @@ func vGSwitchGen(r *vRand, tier string, idx int) ([]int64, [][]int64) {
 			ops = append(ops, []int64{8})
 		case k < 93:
 			ops = append(ops, []int64{9})
-		case k < 96:
+		case k < 95:
 			ops = append(ops, []int64{10, anych()})
 		default:
 			ops = append(ops, []int64{11, anych(), anysc()})
